@@ -20,7 +20,7 @@ CHECKS = {
    "Exploration over root states (inputs at block/chunk edges, merge_subtrees_root_xof) and histories of fill/read/read_exact/set_position/seek/position/clone with positions on both sides of block counter 2^32 and up to 2^64-1; every read must equal spec S[p..p+n], positions and seek results follow a u64 model, failing seeks leave the position unchanged.",
    SPEC + DBG + "Seeks beyond 2^64-1 are documented as unspecified and are not generated.", "DESIGN.md §3 C03"),
  "C04": C("differential property testing across configurations (forced SIMD level x build flavour) with a common spec oracle",
-   "Exploration: the C01/C02/C03/C09 generators are re-run with the whole crate forced to each SIMD level the CPU supports (hook 1) in the asm, prefer_intrinsics, pure and no-default-features builds (thorough: stock no_* feature builds with hooks off); every output is compared with the spec model, so all configurations agree iff each agrees with it. The check fails as an engine error if an expected (build, level) pair did not execute.",
+   "Exploration: the C01/C02/C03/C09 generators are re-run with the whole crate forced to each SIMD level the CPU supports (hook 1) in the asm, prefer_intrinsics, pure, no-default-features, no_avx512+no_avx2 and portable-only (all no_*) builds (thorough: stock no_* feature builds with hooks off); every output is compared with the spec model, so all configurations agree iff each agrees with it. The check fails as an engine error if an expected (build, level) pair did not execute.",
    SPEC + DBG + "Only x86-64 levels present on this CPU (SSE2, SSE4.1, AVX2, AVX-512); NEON/wasm back ends cannot run here.", "DESIGN.md §3 C04"),
  "C05": C("property-based differential testing of kernels (generated argument tuples vs spec compression function)",
    "Exploration over argument tuples of compress_in_place/compress_xof/hash_many/xof_many (counters around 2^32 carries in every lane, all flag bytes, block lengths 0..=64, 0..=35 inputs at arbitrary alignments) executed on every kernel reachable here: Platform methods at each level in three builds (Unix asm, Rust intrinsics, C AVX-512 intrinsics) and raw FFI to C portable, C intrinsics (also the AVX2 file as compiled under BLAKE3_NO_SSE41), Unix assembly and the Windows-GNU assembly (assembled to ELF, called through extern \"win64\").",
